@@ -572,6 +572,21 @@ func c16History(c *vc.Ctx, idx int) {
 			if !post.Relayer.Relayer.LastElected.Equal(blockTime) {
 				viol("election time not recorded", "")
 			}
+			// "awaiting removal at the next election": a member that was awaiting removal before this block is gone now
+			wasLeaving := map[string]bool{}
+			for _, v := range pre.Relayer.Voters {
+				if v.Status == relayertypes.VOTER_STATUS_OFF_BOARDING {
+					if s, err := btcBech(ch, v.Address); err == nil {
+						wasLeaving[s] = true
+					}
+				}
+			}
+			for _, m := range append([]string{post.Relayer.Relayer.Proposer}, post.Relayer.Relayer.Voters...) {
+				if wasLeaving[m] {
+					viol("a member awaiting removal is still a member after the election", fmt.Sprintf("%s (epoch %d -> %d)", m, rel.Epoch, post.Relayer.Relayer.Epoch))
+				}
+			}
+			c.Count("elections_checked_for_leftover_leaving_members", 1)
 			// boarding voters are seated now, off-boarding ones are gone
 			for _, cd := range cands {
 				if cd.state == "boarding" {
@@ -619,7 +634,7 @@ func init() {
 	vc.Register(&vc.Check{
 		ID: "C16", Title: "Relayer group stays well-formed; members join by proof, elections are timely", Level: "exploration",
 		Rule: "one case = one history (60/160 blocks, genesis groups of 1..4, electing period 15 s, acceptance timeout 6 s, 0 or 40 s) with execution-layer add requests (fresh candidates, some registered under a wrong key hash, re-adds) and remove requests (everybody, the proposer, one voter once or twice, pending/boarding candidates, unknown addresses), MsgNewVoter in 9 proof variants (valid; bound to another chain, epoch, registration height or proposer; ECDSA or BLS proof by another key; another BLS key; swapped proofs) on candidates in every status, proposer acceptances (right and wrong epoch), quorum votes incl. one that counts a voter who boards only at the next election, and block times placed at period-1ns, period, timeout-1ns, timeout, timeout+1ns; " +
-			"after every commit: one proposer that is an activated/off-boarding member and not among the voters, members distinct with records, group never empty, Query/Relayer consistent; admission only with ground-truth-valid proofs; a boarding voter is not listed or counted before an election; epoch += 1 exactly when elapsed >= period or (not accepted and timeout != 0 and elapsed >= timeout); FinalizeBlock never fails. Non-trivial = every block; distinct = (members, election due, time edge, adds, removes) and registration variants.",
+			"after every commit: one proposer that is an activated/off-boarding member and not among the voters, members distinct with records, group never empty, Query/Relayer consistent; admission only with ground-truth-valid proofs; a boarding voter is not listed or counted before an election; a member that awaited removal before an election is gone after it; epoch += 1 exactly when elapsed >= period or (not accepted and timeout != 0 and elapsed >= timeout); FinalizeBlock never fails. Non-trivial = every block; distinct = (members, election due, time edge, adds, removes) and registration variants.",
 		Assume: []string{"'proposer accepted' at the end of a block = accepted before, or any relayer message of the proposer succeeded in the block"},
 		Cases:  func(tier string) int { return map[string]int{"quick": 48, "thorough": 200}[tier] },
 		Run:    func(c *vc.Ctx, i int) { c16History(c, i) },
